@@ -1,14 +1,14 @@
 (* C09 — executable entry points used by the correspondence check (cases.v). *)
 From Coq Require Import List NArith Bool.
 Import ListNotations.
-Require Export MV.C09.Model MV.C09.Spec.
+Require Export MV.C09.Model MV.C09.Spec MV.C09.Codec.
 Open Scope N_scope.
 
 (* a case: max payload length, length-prefix flag, global prefix, global labels, operations *)
 Record case := { k_max : N; k_lp : bool; k_prefix : option bytes; k_glabels : list label; k_ops : list op }.
 
 (* which of the three repairs the code in /repo contains *)
-Definition impl_fixes : fixes := as_found.
+Definition impl_fixes : fixes := all_fixed.
 
 Definition cfg_of (f : fixes) (c : case) : cfg :=
   {| c_max := k_max c; c_lp := k_lp c;
